@@ -69,7 +69,11 @@ def _oracle(lines, recs, im, tols):
                 for a, v in zip("XYZ", r[key].split(",")):
                     if pos[a] is None:
                         continue
-                    if v == "~" or abs(Fraction(v) - pos[a]) > err[a]:
+                    try:
+                        off = v == "~" or abs(Fraction(v) - pos[a]) > err[a]
+                    except ValueError:          # `huge`, `nan`: not a coordinate the machine can be at
+                        off = True
+                    if off:
                         out.append((i, f"after `{ln}` the machine is at {a}={show(pos[a])} but {key} reports {v}", "position"))
         return out
 
